@@ -1,0 +1,64 @@
+//go:build verif
+
+package msg
+
+import (
+	"sort"
+	"sync/atomic"
+)
+
+// Read-only snapshot of the Box bookkeeping, for the verification harness in /verif.
+
+type VerifStored struct {
+	Topic    string
+	Sources  []uint16 // source of each buffered message, in order
+	Data     [][]byte // data of each buffered message, in order
+	LastUsed uint64
+}
+
+type VerifSnapshot struct {
+	Pending  []VerifStored
+	Started  map[string]uint64
+	InFlight map[uint16][]string
+	Epoch    uint64
+	LastGC   uint64
+}
+
+func (b *Box) VerifSnapshot() VerifSnapshot {
+	b.initialize()
+	b.lock.RLock()
+	defer b.lock.RUnlock()
+	s := VerifSnapshot{Started: map[string]uint64{}, InFlight: map[uint16][]string{}}
+	for t, sm := range b.pendingMessages {
+		sm.lock.RLock()
+		vs := VerifStored{Topic: t, LastUsed: sm.lastUsed}
+		for _, m := range sm.messages {
+			vs.Sources = append(vs.Sources, m.Source)
+			vs.Data = append(vs.Data, m.Data)
+		}
+		sm.lock.RUnlock()
+		s.Pending = append(s.Pending, vs)
+	}
+	sort.Slice(s.Pending, func(i, j int) bool { return s.Pending[i].Topic < s.Pending[j].Topic })
+	for t, e := range b.startedSending {
+		s.Started[t] = e
+	}
+	for src, ts := range b.totalInFlightTopicsBySender {
+		var l []string
+		for t := range ts {
+			l = append(l, t)
+		}
+		sort.Strings(l)
+		s.InFlight[src] = l
+	}
+	s.Epoch = atomic.LoadUint64(&b.currentGCEpochNum)
+	s.LastGC = atomic.LoadUint64(&b.lastGC)
+	return s
+}
+
+func (b *Box) VerifEpoch() uint64 {
+	b.initialize()
+	return atomic.LoadUint64(&b.currentGCEpochNum)
+}
+
+const VerifLimitPerSender = limitPerSender
